@@ -71,13 +71,12 @@ fn blp_seeds(_ctx: &SeedCtx) -> Vec<Seed> {
 fn blp_drive(_s: &Seed, data: &[u8], p: &mut Probe) {
     let img = p.call("parse_blp", || wow_blp::parser::parse_blp(data));
     if let Some(img) = img {
-        // driven to completion: decode every mipmap level the header announces (plus one beyond)
+        // driven to completion: decode every mipmap level the parsed image holds
         let n = img.image_count().min(16);
-        for lvl in 0..=n {
+        for lvl in 0..n {
             p.call("blp_to_image", || wow_blp::convert::blp_to_image(&img, lvl));
         }
     }
-    p.call("load_blp_from_buf", || wow_blp::parser::load_blp_from_buf(data));
 }
 
 // ------------------------------------------------------------------ DBC ----
@@ -229,6 +228,7 @@ fn wdb5(which: usize, nrec: u32) -> Vec<u8> {
     }
     d.extend_from_slice(&0u16.to_le_bytes()); // flags
     d.extend_from_slice(&0u16.to_le_bytes()); // id index
+    d.extend_from_slice(&0u32.to_le_bytes()); // the crate reads 44 header bytes but places the records at 48
     d.extend(recs);
     d.extend(strings);
     d
@@ -308,7 +308,7 @@ pub fn formats() -> Vec<FormatDef> {
     vec![
         FormatDef {
             name: "blp",
-            entries: &["parse_blp", "blp_to_image", "load_blp_from_buf"],
+            entries: &["parse_blp", "blp_to_image"],
             seeds: blp_seeds,
             drive: blp_drive,
             cipher: None,
